@@ -110,19 +110,21 @@ theorem filtered_load_exact (md : ModelDef) (st : Stores) (es : List (String × 
 theorem save_guard (filtered : Bool) : (flagStep filtered .save).2 = !filtered ∧ (flagStep filtered .save).1 = filtered := by
   exact ⟨rfl, rfl⟩
 
-/-- … and along any sequence of loads and save attempts the flag is false exactly when the last
-    successful load was a full load -/
+/-- … and along any sequence of loads and save attempts the flag is false exactly when some full
+    load succeeded and no filtered load — completed or failed — was attempted since: whenever the
+    enforcer may hold a partial view, the guard is up -/
 theorem guard_tracks_view (calls : List Call) :
     (flagRun true calls).1 = false ↔
-      ∃ pre post, calls = pre ++ .loadFull true :: post ∧ ∀ c ∈ post, c ≠ .loadFiltered true := by
+      ∃ pre post, calls = pre ++ .loadFull true :: post ∧ ∀ c ∈ post, c.isFilteredLoad = false := by
   rw [flagRun_false_iff]
   simp
 
-/-- consequently a save that writes is never preceded by a successful filtered load without a
-    successful full load in between: a partial view never overwrites the full policy -/
+/-- consequently a save that writes is never preceded by a filtered load (successful or not)
+    without a successful full load in between: a partial view never overwrites the full policy -/
 theorem no_clobber (calls : List Call) (i : Nat) (hi : calls[i]? = some .save)
     (hw : (flagRun true calls).2[i]? = some true) :
-    ∃ j, j < i ∧ calls[j]? = some (.loadFull true) ∧ ∀ k, j < k → k < i → calls[k]? ≠ some (.loadFiltered true) := by
+    ∃ j, j < i ∧ calls[j]? = some (.loadFull true) ∧
+      ∀ k, j < k → k < i → ∀ ok, calls[k]? ≠ some (.loadFiltered ok) := by
   rw [flagRun_writes_getElem?, hi] at hw
   simp only [Option.map_some, Option.some.injEq, flagStep, Bool.not_eq_true'] at hw
   obtain ⟨pre, post, e, hpost⟩ := (guard_tracks_view (calls.take i)).1 hw
@@ -136,15 +138,16 @@ theorem no_clobber (calls : List Call) (i : Nat) (hi : calls[i]? = some .save)
   refine ⟨pre.length, by omega, ?_, ?_⟩
   · rw [hget _ (by omega)]
     simp
-  · intro k hjk hki hk
+  · intro k hjk hki ok hk
     rw [hget k hki, List.getElem?_append_right (by omega)] at hk
     obtain ⟨m, hm⟩ : ∃ m, k - pre.length = m + 1 := ⟨k - pre.length - 1, by omega⟩
     rw [hm, List.getElem?_cons_succ] at hk
-    exact hpost _ (List.mem_of_getElem? hk) rfl
+    have := hpost _ (List.mem_of_getElem? hk)
+    simp [Call.isFilteredLoad] at this
 
 /-! ### non-vacuity -/
 example : filterLine "p, alice , data1, read".toList { p := ["alice".toList] } = false := by decide
 example : filterLine "p, bob, data1, read".toList { p := ["alice".toList] } = true := by decide
-example : (flagRun true [.loadFiltered true, .save, .loadFull true, .save, .loadFull false, .save]).2 = [false, false, false, true, false, true] := by decide
+example : (flagRun true [.loadFiltered true, .save, .loadFull true, .save, .loadFull false, .save, .loadFiltered false, .save]).2 = [false, false, false, true, false, true, false, false] := by decide
 
 end Casbin.C18
